@@ -17,15 +17,9 @@ def positioned(e, pos):
             "deepright": "b && (%s && %s)" % (p, e), "orint": "i < 0 || %s" % e, "forall": "forall (k : int[0,1]) %s" % e}[pos]
 
 
-def model_of(m, reorder=False):
-    """abstract placement -> model dict. Template T carries template-scoped features; template U is clean.
-    inst=FALSE: only U is listed in the system line."""
-    gdecl = ["int i; bool b; double d;", "clock x; hybrid clock h;"]
-    tdecl = []
-    T = {"name": "T", "locations": [{"id": "id0", "name": "A"}, {"id": "id1", "name": "B"}], "init": "id0",
-         "edges": [{"src": "id0", "dst": "id1"}]}
-    U = {"name": "U", "locations": [{"id": "id2", "name": "C"}], "init": "id2", "edges": []}
-    system = "system T, U;"
+def place(m, T, gdecl, tdecl):
+    """write the restricting feature m into template T / the global declarations; -> replacement system line or None"""
+    system = None
     f = m["feat"]
     if f == "fpcmp":
         e = "x %s 1.5" % REL[m["op"]] if m["order"] == "cv" else "1.5 %s x" % MIR[m["op"]]
@@ -61,6 +55,19 @@ def model_of(m, reorder=False):
         gdecl.append("chan priority pa < pb;")
     elif f == "procprio":
         system = "system T < U;"
+    return system
+
+
+def model_of(m, reorder=False):
+    """abstract placement -> model dict. Template T carries template-scoped features; template U is clean.
+    inst=FALSE: only U is listed in the system line."""
+    gdecl = ["int i; bool b; double d;", "clock x; hybrid clock h;"]
+    tdecl = []
+    T = {"name": "T", "locations": [{"id": "id0", "name": "A"}, {"id": "id1", "name": "B"}], "init": "id0",
+         "edges": [{"src": "id0", "dst": "id1"}]}
+    U = {"name": "U", "locations": [{"id": "id2", "name": "C"}], "init": "id2", "edges": []}
+    system = "system T, U;"
+    system = place(m, T, gdecl, tdecl) or system
     mode = m.get("inst", "yes")
     if mode == "no":
         system = "system U;"
@@ -78,6 +85,29 @@ def model_of(m, reorder=False):
         if system == "system T, U;":
             system = "system U, T;"
     return {"decl": "\n".join(gdecl), "templates": templates, "system": system}
+
+
+def pair_model(p):
+    """two restricting features, a in template TA, b in template TB, declared in the order p['first'] says"""
+    ga, gb, ta, tb = [], [], [], []
+    def templ(name, l0, l1):
+        return {"name": name, "locations": [{"id": l0, "name": "A"}, {"id": l1, "name": "B"}], "init": l0, "edges": [{"src": l0, "dst": l1}]}
+    TA, TB = templ("TA", "id0", "id1"), templ("TB", "id2", "id3")
+    place(p["a"], TA, ga, ta)
+    place(p["b"], TB, gb, tb)
+    TA["decl"], TB["decl"] = "\n".join(ta), "\n".join(tb)
+    base = ["int i; bool b; double d;", "clock x; hybrid clock h;"]
+    sysl, procs = [], []
+    for nm, T, m in (("TA", TA, p["a"]), ("TB", TB, p["b"])):
+        if m.get("inst") == "full":
+            T["params"] = "const int[0,1] id"
+            sysl.append("P%s = %s(1);" % (nm, nm)); procs.append("P" + nm)
+        else:
+            procs.append(nm)
+    a_first = p["first"] == "a"
+    gdecl = base + (ga + gb if a_first else gb + ga)
+    templates = [TA, TB] if a_first else [TB, TA]
+    return {"decl": "\n".join(gdecl), "templates": templates, "system": "\n".join(sysl + ["system %s;" % ", ".join(procs if a_first else procs[::-1])])}
 
 
 def key_of(m):
@@ -124,10 +154,33 @@ def run(tier):
         if outs[0] is not None and outs[1] is not None and outs[0] != outs[1]:
             c.finding("c17:order-dependent:%s" % key_of(m), "declaration order changes the verdict for %s: %s vs %s" % (key_of(m), outs[0], outs[1]), {"placement": m})
         # never-instantiated twin must report everything supported (template-scoped features)
+    # ---- pairs: a symbolic-restricting and a stochastic-restricting feature in one model, in both declaration orders
+    pairs = vf.read_ndjson(outf + ".pairs")
+    pjobs = [{"id": "p%d" % n, "entry": "xml_buffer", "text": render_xml(pair_model(rec["p"])), "structure": False} for n, rec in enumerate(pairs)]
+    pres = vf.run_jobs(pjobs, c.run_dir, variant="plain", name="pairs")
+    for n, rec in enumerate(pairs):
+        r = pres["p%d" % n]
+        p = rec["p"]
+        pk = "%s+%s:first=%s" % (key_of(p["a"]), key_of(p["b"]), p["first"])
+        rep = {"pair": p, "model": pair_model(p)}
+        if r.get("main", {}).get("outcome") != "return":
+            c.finding("c17:no-verdict:" + pk, "no supported-methods verdict: parsing ended with %s for the pair %s" % (r.get("main", {}).get("exc") or r.get("outcome"), pk), rep)
+            continue
+        d = r["dump"]["doc"]
+        if d["errors"]:
+            raise vf.MachineryError("scaffold for pair %s rejected: %s" % (pk, [e["msg"] for e in d["errors"]][:3]))
+        s = d["supported"]
+        nontrivial += 1
+        for meth, sem in (("symbolic", rec["sem"]["sym"]), ("stochastic", rec["sem"]["sto"]), ("concrete", rec["sem"]["con"])):
+            if s[meth] and not sem:
+                c.finding("c17:%s-reported:pair:%s" % (meth, pk), "%s analysis reported as supported for a model with two restricting features (%s)" % (meth, pk), rep)
+        if (s["symbolic"], s["stochastic"], s["concrete"]) != (rec["impl"]["sym"], rec["impl"]["sto"], rec["impl"]["con"]):
+            drift += 1
+    c.cov["feature_pairs"] = len(pairs)
     if not spec["allsound"] and not c.violations and not c.known_hit:
         raise vf.MachineryError("Features.tla's transcription is unsound (%d placements) but libutap's report was sound on all: transcription stale" % spec["unsound"])
-    c.cov["traces_validated_against_impl"] = len(jobs)
-    c.cov["evaluations"] = len(jobs)
+    c.cov["traces_validated_against_impl"] = len(jobs) + len(pjobs)
+    c.cov["evaluations"] = len(jobs) + len(pjobs)
     c.cov["distinct_nontrivial"] = nontrivial
     c.cov["rule"] = "one restricting-feature placement per model (fp comparison: role x operator x operand order x 7 positions; fp assignment: target x list position; clock initialiser; rate; channel kind x scope x shape; dynamic; priorities) x instantiated-or-not x two declaration orders; non-trivial = some method must not be reported"
     c.cov["exhaustive"] = True
